@@ -67,7 +67,10 @@ class McxVchainDirty(Gate):
             self.ancilla_qubits = QuantumRegister(num_ancilla)
 
         super().__init__(
-            "mcx_vc_dirty", num_controls + num_ancilla + 1, [], "mcx_vc_dirty"
+            "mcx_vc_dirty",
+            num_controls + num_ancilla + num_target_qubit,
+            [],
+            "mcx_vc_dirty",
         )
 
     @staticmethod
